@@ -223,7 +223,8 @@ func c20WorldSwap(t *testing.T, g *rng) *c20Rich {
 			return vaulttypes.NewMsgDepositRequest(user(21), fx.appV, fx.extPair, m.VaultId, sdk.NewInt(1000000))
 		})
 		// a new external reward programme for lockers / vaults: the id each chain hands out and how many
-		// programmes exist afterwards (the id counters, rewards prefixes 21 / 22, are not exported)
+		// programmes exist afterwards (the id counters, rewards prefixes 21 / 22, are not exported; since
+		// fix C20-F18 InitGenesis recomputes them as the maximum imported programme id: both chains agree)
 		fund(t, a, tw.orig, user(81), sdk.NewCoins(sdk.NewCoin("uharbor", sdk.NewInt(100000000)), sdk.NewCoin("ucmdx", sdk.NewInt(100000000))))
 		fund(t, a, tw.reimp, user(81), sdk.NewCoins(sdk.NewCoin("uharbor", sdk.NewInt(100000000)), sdk.NewCoin("ucmdx", sdk.NewInt(100000000))))
 		tw.msg("rewards.ext-locker-new", "rewards", func(ctx sdk.Context) sdk.Msg {
